@@ -211,6 +211,19 @@ func FixedFed2() FedSpec {
 	return buildFed([]string{"A", "B", "C"}, owners)
 }
 
+// FixedFed3 is FixedFed with the remote fields of Cat and of Dog at one and the same other service (C), so that
+// selections under different type conditions of one abstract field are candidates for one dependent step.
+func FixedFed3() FedSpec {
+	owners := map[string][]string{
+		"Query.allUsers": {"A"}, "Query.user": {"A"}, "Query.me": {"A"}, "Query.pets": {"A"}, "Query.allPhotos": {"B"}, "Query.topPhoto": {"B"},
+		"Mutation.bump": {"A"}, "Mutation.touch": {"B"},
+		"User.firstName": {"A"}, "User.friends": {"A"}, "User.pet": {"A"}, "User.lastName": {"B", "C"}, "User.photos": {"B"}, "User.favorite": {"B"}, "User.nick": {"C"},
+		"Photo.url": {"B"}, "Photo.owner": {"B"}, "Photo.likes": {"C"}, "Photo.likedBy": {"C"},
+		"Cat.lives": {"A"}, "Cat.toys": {"C"}, "Dog.barks": {"C"}, "Dog.owner": {"B"},
+	}
+	return buildFed([]string{"A", "B", "C"}, owners)
+}
+
 // GenStore builds a data graph with nulls, empty lists, shared and cyclic references.
 func GenStore(r *rand.Rand, oddIDs bool) Store {
 	u := func(id string) Ref { return Ref{"User", id} }
